@@ -163,7 +163,13 @@ class Run:
             self.checker_cmds.append(r.cmd)
             self.samples.append({"obligation": clauses[0], "unit": n, "backend": "verus", "result": "discharged"})
         elif r.status == "failed":
-            failed = sorted({f.clause or f"{n}.safety" for f in r.failures})
+            def cname(f):
+                if f.clause:
+                    return f.clause
+                if u.trait_method and "postcondition" in f.kind:
+                    return f"{n}.post.rel"
+                return f"{n}.safety"
+            failed = sorted({cname(f) for f in r.failures})
             own = [c for c in failed if c.startswith(n + ".")]
             rep["failed_clauses"] = failed
             rep["verifier_output"] = [f"{f.kind} @ {f.detail}" for f in r.failures][:20]
